@@ -427,10 +427,14 @@ def run(repo: Repo) -> Result:
     res.not_decided = "equivalence with pairwise conformance on all graphs (relies on C01 for each generated rule); order of the generated rules and of the names inside one rule."
     res.trusted_base = ["C01 (meaning of the generated module rules)", "rules/c07_sym.py (symbolic evaluator)", "rules/c07_norm.py (normal form)"]
     A = Anchors(repo)
-    check_convert(repo, res, A)
-    check_applier(repo, res, A)
-    check_prefix(repo, res, A)
-    check_pipeline(repo, res, A)
+    for rule, check, f in (("C07.R1", check_convert, A.convert), ("C07.R2", check_applier, A.mra_apply), ("C07.R3", check_prefix, A.prefix), ("C07.R3", check_pipeline, A.dr_apply)):
+        try:
+            check(repo, res, A)
+        except AnalysisError:
+            raise
+        except (RecursionError, KeyError, IndexError, TypeError, ValueError, AttributeError) as e:
+            # never a verdict: the evaluator met a shape it was not built for
+            res.undecide(rule, f"{f.relpath}::{f.qualname}", f"symbolic evaluation failed ({type(e).__name__}: {e})", where_of(f))
     if not res.undecided:
         for rule, n in (("C07.R1", 4), ("C07.R2", 2), ("C07.R3", 4)):
             res.floor(rule, n, sum(1 for o in res.obligations if o.rule == rule))
